@@ -73,7 +73,7 @@ def obligations(tier):
             n = box_size(bdims)
             sk = dict(kind=kind, variant=variant, style=style, explicit=explicit, sym="B", bdims=bdims, A=A)
         tag = "".join(str(v) for v in (sum(B, []) if B and isinstance(B[0], list) else (B or []))) if sym == "A" else "symB"
-        obs.append(Ob("%s/%s/%s/%s%s/%s" % (kind, variant, style, "x".join(map(str, adims or bdims)), "e" if explicit else "", tag), "kernel", sk, names("v", n), []))
+        obs.append(Ob("%s/%s/%s/%s%s/%s" % (kind, variant, style, "x".join(map(str, adims or bdims)), ("est" if explicit == "estimated" else "e") if explicit else "", tag), "kernel", sk, names("v", n), []))
 
     # dot
     for B in ([[2, 0, 3], [0, 0, 0]] if q else [[2, 0, 3], [0, 0, 0], [3, 2, 2], [0, 3, 0]]):
@@ -89,6 +89,12 @@ def obligations(tier):
                     add("mv", variant, [2, 3], B, style, explicit)
     for variant in ("MK", "KM", "MK1K0/2"):
         add("mv", variant, None, None, "2f", False, sym="B", A=[[2, 0, 3], [0, 0, 3]], bdims=[3])
+    # a rotation of three ranks (tiled M, K outermost) and operands whose rank shapes are only estimated
+    for B in ([[2, 0, 3]] if q else [[2, 0, 3], [3, 2, 2]]):
+        add("mv", "KM1M0/1", [2, 3], B)
+        add("mv", "KM1M0/2", [3, 3] if not q else [3, 2], B if not q else B[:2])
+        for variant in ("MK", "MK1K0/2", "KM"):
+            add("mv", variant, [2, 3], B, "2f", "estimated")
     # matrix-matrix
     for B in ([[[2, 0], [0, 3]]] if q else [[[2, 0], [0, 3]], [[0, 0], [2, 3]], [[3, 2], [2, 3]]]):
         for variant in ("MNK", "MKN", "KMN", "NMK"):
